@@ -236,6 +236,10 @@ func mergeValues(opts *options, old, v value) (value, Error) {
 	if old == nil {
 		return v, nil
 	}
+	if isNil(old) && isNil(v) {
+		// nil over nil stays nil (both would evaluate to an empty object)
+		return v, nil
+	}
 
 	// check if new and old value evaluate to sub-configurations. If one is no
 	// sub-configuration, use new value only.
@@ -246,6 +250,12 @@ func mergeValues(opts *options, old, v value) (value, Error) {
 	subV, err := v.toConfig(opts)
 	if err != nil {
 		return v, nil
+	}
+	if !isSub(old) && !isNil(old) {
+		// The old value only evaluates to a sub-configuration: it is a reference
+		// to an object or list. Merge into a copy, the referenced setting is not
+		// named by the input and must not change.
+		subOld = cfgSub{subOld}.cpy(old.Context()).(cfgSub).c
 	}
 
 	// merge new and old evaluated sub-configurations and return subOld for
